@@ -84,7 +84,10 @@ def generate(seed, mode):
                         # a class that is false in a boolean context (its metaclass defines __bool__ / __len__): legal, if unusual
                         'falsy': w.random() < 0.15,
                         # a metaclass that itself implements interfaces (what the class provides through its type)
-                        'dmeta': w.random() < 0.25})
+                        'dmeta': w.random() < 0.25,
+                        # fault `cb-reenter`: a metaclass whose __setattr__ pickles the specification at the moment the library
+                        # attaches it to the class (an attribute-change listener, a persistence hook)
+                        'hmeta': h64(seed, 'hook-metaclass', c) % 5 == 0})
     restart = bool(mode.get('restart'))
     nops = w.randint(2, 10)
     ops = []
@@ -173,17 +176,31 @@ def build_world(W):
     if ifs:
         from zope.interface import classImplements as _ci
         _ci(DeclMeta, ifs[0])
+    mod._hook_blobs = []
+
+    class HookMeta(type):
+        def __setattr__(cls, name, value):
+            type.__setattr__(cls, name, value)
+            if name == '__implemented__':
+                try:
+                    mod._hook_blobs.append((cls.__name__, pickle.dumps(value, 2)))
+                except Exception as e:      # noqa
+                    mod._hook_blobs.append((cls.__name__, 'raise:' + type(e).__name__))
+    HookMeta.__module__ = WMOD
+    HookMeta.__qualname__ = 'HookMeta'
+    mod.HookMeta = HookMeta
     for c, cd in enumerate(W['classes']):
         name = 'PK%d' % c
         bl = [classes[b] for b in cd['bases']]
         cls = None
-        meta = FalsyMeta if cd.get('falsy') else (DeclMeta if cd.get('dmeta') else type)
+        meta = FalsyMeta if cd.get('falsy') else (DeclMeta if cd.get('dmeta') else (HookMeta if cd.get('hmeta') else type))
         for attempt in (bl, bl[:1], []):
             try:
                 cls = meta(name, tuple(attempt) or (object,), {'__module__': WMOD, '__qualname__': name})
                 break
             except TypeError:
                 continue
+        setattr(mod, name, cls)          # importable from here on (a pickle taken by a hook during the declarations refers to it)
         xs = [ifs[x] for x in cd['xs']]
         pxs = [ifs[x] for x in cd['pxs']]
         d = cd['decl']
@@ -493,6 +510,18 @@ def execute_pickle(program, ctx, mode):
     W = program['world']
     mod, ifs, classes = build_world(W)
     nI = len(ifs)
+    # what a metaclass hook pickled at the moment the specification was attached to its class refers to that very specification
+    for cname, blob in mod._hook_blobs:
+        ctx.fault('cb-reenter-pickle-at-attachment')
+        cls_ = getattr(mod, cname)
+        if isinstance(blob, str):
+            ctx.violation('C13', 'hook-dump', 'C13|dumps-raises|implements-at-attachment|%s' % blob, {'class': cname})
+        try:
+            v_ = pickle.loads(blob)
+        except Exception as e:      # noqa
+            ctx.violation('C13', 'hook-load', 'C13|loads-raises|implements-at-attachment|%s' % type(e).__name__, {'class': cname})
+        if v_ is not implementedBy(cls_):
+            ctx.violation('C13', 'hook-identity', 'C13|not-identical|implements-pickled-at-attachment', {'class': cname})
     obs = []
     only = [cd['decl'] == 'only' for cd in W['classes']]
     hist_class_ops = [False]
@@ -608,11 +637,11 @@ def execute_pickle(program, ctx, mode):
                 for a in v.__bases__[:-1]:
                     if any(a is I for I in ifs):          # interfaces only: a class specification among the bases follows its class
                         kept |= {x.__name__ for x in a.__iro__ if x.__name__.startswith('PI')}
-                stash.append((label, kind, pickle.dumps(v, proto), args, kept))
+                stash.append((label, kind, pickle.dumps(v, proto), args, kept, v))
             ctx.probe('dumped-for-a-later-load')
             ctx.log(step, 'dump', proto, len(stash))
         elif name == 'loadlater':
-            for label, kind, b, args, kept in stash:
+            for label, kind, b, args, kept, v_live in stash:
                 try:
                     v2 = pickle.loads(b)
                 except BaseException as e:    # noqa
@@ -633,6 +662,13 @@ def execute_pickle(program, ctx, mode):
                 if not (least <= got <= want):
                     ctx.violation('C13', 'same-interfaces', 'C13|later-load|provides-differ|%s|%s' % (kind, 'missing' if least - got else 'extra'),
                                   {'label': label, 'got': sorted(got), 'at-least': sorted(least), 'at-most': sorted(want)})
+                # the declaration object that was pickled is still held (by whoever asked for it then), possibly replaced on its
+                # class / object since: it must still say what it held directly, or the pickle and the original have come apart
+                live_now = set(names_of(v_live, ifs))
+                ctx.probe('kept-declaration-compared-with-its-pickle')
+                if not (least <= live_now):
+                    ctx.violation('C13', 'same-interfaces', 'C13|later-load|provides-differ|%s|kept-original-lost-what-its-pickle-provides' % kind,
+                                  {'label': label, 'original-now': sorted(live_now), 'loaded': sorted(got), 'at-least': sorted(least)})
             ctx.log(step, 'loadlater', len(stash))
         elif name == 'roundtrip':
             proto = op['proto'] % 6
